@@ -2,9 +2,10 @@
 # Run once after a fresh restore, offline: build everything the checks share.
 set -e
 cd "$(dirname "$0")"
+REPO="${VERIF_REPO:-/repo}"
 mkdir -p build evidence replays
-python3 tools/extract_tables.py /repo lean/QM/Generated/Tables.lean build/tables.json
+python3 tools/extract_tables.py "$REPO" lean/QM/Generated/Tables.lean build/tables.json
 RUSTFLAGS="--cfg quadlet_rs_verif" CARGO_NET_OFFLINE=true cargo build --offline --quiet \
-  --manifest-path /repo/Cargo.toml --target-dir build/target
+  --manifest-path "$REPO/Cargo.toml" --target-dir build/target
 cd lean
 lake build qmodel QM 2>&1 | tail -3
